@@ -1,3 +1,41 @@
-"""Pinned theorem statements of Props/C07.v and Props/C08.v."""
-THEOREMS_C07 = []
-THEOREMS_C08 = []
+"""Pinned theorem statements of Props/C07.v and Props/C08.v (checked with `Check (name : statement).` on every run)."""
+
+def _no(rule, strict="false"):
+    return ("forall w h body, dims w h -> vp8l_spec_why %s w h body = Some %s -> lossless_read w h body <> Ok tt" % (strict, rule))
+
+THEOREMS_C07 = [
+    ("C07_model_sound", """forall w h body, dims w h ->
+      lossless_read w h body = Ok tt -> vp8l_spec w h body = true"""),
+    ("C07_model_is_strict_spec", """forall w h body, dims w h ->
+      is_ok (lossless_read w h body) = vp8l_spec_strict w h body"""),
+    ("C07_strict_implies_reference", """forall w h body, vp8l_spec_strict w h body = true -> vp8l_spec w h body = true"""),
+    ("C07_model_total", """forall w h body, dims w h ->
+      lossless_read w h body = Ok tt \\/ exists e, lossless_read w h body = EParse e"""),
+    ("C07_no_duplicate_transform", _no("RDuplicateTransform")),
+    ("C07_no_bad_cache_size", _no("RCacheBits")),
+    ("C07_no_overlong_symbol_count", _no("RSymbolCount")),
+    ("C07_no_repeat_overrun", _no("RRepeatOverrun")),
+    ("C07_no_incomplete_code", """forall w h body, dims w h ->
+      vp8l_spec_why false w h body = Some RCodeIncomplete \\/ vp8l_spec_why false w h body = Some RCodeOverSubscribed \\/
+      vp8l_spec_why false w h body = Some RCodeEmpty -> lossless_read w h body <> Ok tt"""),
+    ("C07_no_symbol_outside_alphabet", _no("RSymbolOutsideAlphabet")),
+    ("C07_no_backref_before_start", _no("RBackrefBeforeStart")),
+    ("C07_no_backref_past_end", _no("RBackrefPastEnd")),
+    ("C07_no_invalid_predictor", _no("RStrictPredictor", "true")),
+    ("C07_no_truncated", _no("RTruncated")),
+    ("C07_distance_map_eq", """forall dcode width, 1 <= dcode -> width < 2 ^ 29 ->
+      distance_of dcode width = Ok (plane_code_to_distance width dcode)"""),
+    ("C07_accessors_are_ideal", """(forall w n s, rd w n s = of_ideal (ideal_read w n s)) /\\
+      (forall s, rd_bit s = of_ideal (ideal_read_bit s)) /\\
+      (forall c s, rd_lz77 c s = of_ideal (ideal_read_lz77 c s))"""),
+]
+
+THEOREMS_C08 = [
+    ("C08_model_complete", """forall w h body, dims w h ->
+      vp8l_spec w h body = true -> strict_exception w h body = false -> lossless_read w h body = Ok tt"""),
+    ("C08_strict_exception_is_documented", """forall w h body, strict_exception w h body = true ->
+      vp8l_spec_why false w h body = None /\\
+      (vp8l_spec_why true w h body = Some RStrictPredictor \\/ vp8l_spec_why true w h body = Some RStrictSingleSymbol)"""),
+    ("C08_model_is_strict_spec", """forall w h body, dims w h ->
+      is_ok (lossless_read w h body) = vp8l_spec_strict w h body"""),
+]
